@@ -132,7 +132,7 @@ func (c *Ctx) c04Allocations(rule string, fns []*ssa.Function, floor int) {
 					n++
 					key := fkey(fn) + ":alloc:make(" + describe(sz) + ")"
 					ok, why := c.boundedSize(l, ms, sz)
-					if !ok && !token.IsExported(fn.Name()) && core.MethodIs(fn, pkBuffer, "Reader", fn.Name()) {
+					if !ok && !token.IsExported(fn.Name()) && fn.Parent() == nil && (core.MethodIs(fn, pkBuffer, "Reader", fn.Name()) || (c.P.InPkg(fn, "buffer") && len(c.P.CallSitesOf(fn)) > 0)) {
 						// lifted precondition: int parameters of unexported Reader methods are <= MaxMessageSize
 						l2 := core.NewLin(c.P, fn, mods, sum)
 						mts := maxTerms(l2)
